@@ -7,6 +7,7 @@
 
 pub mod hooks;
 pub mod node;
+pub mod pl;
 pub mod types;
 
 pub use crate::{
